@@ -61,7 +61,7 @@ theorem forward_eq_reverse (p : Prog R) (hp : p.WellScoped) (h : Nat) (env : Nat
     simp only [hh] at this
     intro i
     rw [(dual_eq_grad p i env).2 k |>.2]
-    exact this i
+    exact this.2 i
   | some h' =>
     simp only [hh] at this
     obtain ⟨adj, h1, _, h3⟩ := this
